@@ -156,12 +156,14 @@ class MapObj(object):
         self.ordered = ordered
         self.origin = origin  # dict | OrderedDict | parsed
         self.input_ordered = False
+        self.default_factory = None  # collections.defaultdict: callable value producing missing entries
 
     def copy(self):
         o = MapObj(self.ordered, self.origin)
         o.entries = dict(self.entries)
         o.order = list(self.order)
         o.input_ordered = self.input_ordered
+        o.default_factory = self.default_factory
         return o
 
     def set(self, key, present, value):
@@ -707,6 +709,98 @@ def mk_or(cs):
     if len(uniq) == 1:
         return uniq[0]
     return BoolOp("or", uniq)
+
+
+def prop_reduce(c, max_atoms=8):
+    """Propositional simplification of a boolean structure whose leaves could not be folded into one
+    table: the leaves (a boolean table and its complement count as one atom) are treated as free
+    propositions; returns a constant when the structure is a tautology / contradiction, the single
+    literal it is equivalent to, or a disjunction of minterms over the atoms it really depends on."""
+    if not isinstance(c, BoolOp):
+        return c
+    atoms = {}
+    # a compound sub-condition that occurs several times (e.g. the `any(...)` guard of an optional
+    # group) is one proposition: sound, since a structure that is constant / independent for a free
+    # proposition is so for every value the sub-condition can take
+    counts = {}
+
+    def count(t):
+        if isinstance(t, BoolOp):
+            if t.op in ("and", "or"):
+                counts[t.sortkey()] = counts.get(t.sortkey(), 0) + 1
+            for x in t.args:
+                count(x)
+
+    count(c)
+    shared = set(k for k, n_ in counts.items() if n_ >= 2 and k != c.sortkey())
+
+    def has_shared_inside(t, top=True):
+        if isinstance(t, BoolOp):
+            if not top and t.sortkey() in shared:
+                return True
+            return any(has_shared_inside(x, False) for x in t.args)
+        return False
+
+    def prune(t):
+        if isinstance(t, BoolOp):
+            if t.sortkey() in shared and has_shared_inside(t):
+                shared.discard(t.sortkey())
+            for x in t.args:
+                prune(x)
+
+    prune(c)
+
+    def literal(t):
+        n = mk_not(t)
+        if isinstance(n, BoolOp) and n.op == "not":
+            k, pol = t.sortkey(), True
+        else:
+            kt, kn = t.sortkey(), n.sortkey()
+            k, pol = (kt, True) if kt <= kn else (kn, False)
+        if k not in atoms:
+            atoms[k] = t if pol else n
+        return k, pol
+
+    def build(t):
+        if isinstance(t, Const):
+            v = bool(truth_const(t.v))
+            return lambda a: v
+        if isinstance(t, BoolOp) and t.sortkey() not in shared:
+            subs = [build(x) for x in t.args]
+            if t.op == "not":
+                return lambda a: not subs[0](a)
+            if t.op == "and":
+                return lambda a: all(f(a) for f in subs)
+            return lambda a: any(f(a) for f in subs)
+        k, pol = literal(t)
+        return (lambda a: a[k]) if pol else (lambda a: not a[k])
+
+    f = build(c)
+    keys = sorted(atoms)
+    if not keys or len(keys) > max_atoms:
+        return c
+    import itertools
+
+    rows = {}
+    for bits in itertools.product((False, True), repeat=len(keys)):
+        rows[bits] = bool(f(dict(zip(keys, bits))))
+    vals = set(rows.values())
+    if len(vals) == 1:
+        return Const(vals.pop())
+    dep = []
+    for i in range(len(keys)):
+        if any(rows[b] != rows[b[:i] + (not b[i],) + b[i + 1 :]] for b in rows):
+            dep.append(i)
+    if len(dep) == len(keys):
+        return c
+    minterms = set()
+    for b, v in rows.items():
+        if v:
+            minterms.add(tuple(b[i] for i in dep))
+    if len(dep) == 1:
+        a = atoms[keys[dep[0]]]
+        return a if (True,) in minterms else mk_not(a)
+    return mk_or([mk_and([atoms[keys[i]] if bit else mk_not(atoms[keys[i]]) for i, bit in zip(dep, mt)]) for mt in sorted(minterms)])
 
 
 def subst_poly(p, sub):
